@@ -50,7 +50,7 @@ META = dict(
     ],
     outside="T larger than listed; regions larger than listed; the co-location interpolation in front of update (C15); complex time-domain fields; "
             "float round-off; the integration variant (phasor + field detector inside one forward run)",
-    bounds=dict(quick=dict(T=6, region=(2, 1, 2), configs="rotating covering subset"), thorough=dict(T=[6, 12], region=(2, 1, 2), configs="stride x scaling x window x switch")),
+    bounds=dict(quick=dict(T=6, region="(2,1,2) / closed (2,2,2)", configs="rotating covering subset (12 PhasorDetector + 6 closed-surface + 2 plane configurations), 4 flux cases"), thorough=dict(T=[6, 12, 24], region="(2,1,2) / closed (2,2,2)", configs="T=6: stride x scaling x window x switch (72 PhasorDetector + 12 closed + 3 plane); T=12,24: the quick subset")),
     timeout_ms=dict(quick=60000, thorough=300000),
 )
 
@@ -98,6 +98,7 @@ def cases(tier, seed):
         rest = [cf for cf in _configs("thorough") if cf not in q]
         chunk(rest, "dft-T6-x", 6)
         chunk(q, "dft-T12-g", 12)
+        chunk(q, "dft-T24-g", 24)
     for g in ("uniform", "nonuniform"):
         out.append(dict(name=f"flux-plane-{g}", kind="flux-plane", grid=g))
         out.append(dict(name=f"flux-closed-{g}", kind="flux-closed", grid=g))
@@ -128,7 +129,7 @@ def _window_obj(apod, T, dt):
     if apod == "gauss":
         return GaussianWindow(center_time=0.45 * T * dt, sigma_time=0.3 * T * dt)
     if apod == "tukey":
-        return TukeyWindow(start_time=0.5 * dt, end_time=(T - 1.25) * dt, alpha=0.6)
+        return TukeyWindow(start_time=-0.5 * dt, end_time=(T - 1.25) * dt, alpha=0.6)
     raise ValueError(apod)
 
 
@@ -139,7 +140,7 @@ def _window_val(apod, T, dt, time):
     if apod == "gauss":
         c0, s0 = 0.45 * T * dt, 0.3 * T * dt
         return math.exp(-((time - c0) ** 2) / (2.0 * s0 * s0))
-    start, end, alpha = 0.5 * dt, (T - 1.25) * dt, 0.6
+    start, end, alpha = -0.5 * dt, (T - 1.25) * dt, 0.6
     x = (time - start) / (end - start)
     if x < 0.0 or x > 1.0:
         return 0.0
@@ -242,8 +243,29 @@ def _run_dft(c, case, rng):
             rs = (2, 2, 2)
         regions[f"d{i}"] = rs
         dets.append((_mk_detector(cfg, f"d{i}", rs, T, dt), lo))
-    S = mini_scene(shape, widths, dets, steps=T)
-    D, ST = S["det"], S["states"]
+    try:
+        S = mini_scene(shape, widths, dets, steps=T)
+        D, ST = S["det"], S["states"]
+    except Inconclusive:
+        raise
+    except Exception:  # noqa: BLE001  -- isolate the configuration that does not place
+        D, ST, S = {}, {}, None
+        for i, cfg in enumerate(case["cfgs"]):
+            try:
+                S1 = mini_scene(shape, widths, [dets[i]], steps=T)
+                D.update(S1["det"])
+                ST.update(S1["states"])
+                S = S1
+            except Inconclusive:
+                raise
+            except Exception as ex:  # noqa: BLE001
+                rec, stride, coef, scale, wsum = _oracle_tables(cfg, T, dt)
+                if not (wsum > 1e-6):
+                    raise Inconclusive(f"harness configuration {cfg} has an (almost) empty window over its recorded steps")
+                c.fail_concrete(f"legal configuration raises at placement: {cfg}", dict(cfg=cfg, recorded=rec, window_sum=wsum, error=f"{type(ex).__name__}: {str(ex)[:300]}"),
+                                key=f"{cfg['cls']}:placement")
+        if S is None:
+            raise Inconclusive("no detector configuration of this case could be placed")
     if abs(S["dt"] - dt) > 0 or int(S["config"].time_steps_total) != T:
         raise Inconclusive(f"scene has {S['config'].time_steps_total} steps / dt {S['dt']}, harness intended {T} / {dt}")
     big = (2, 2, 2)
@@ -251,6 +273,8 @@ def _run_dft(c, case, rng):
     box = [z3.And(v >= -1, v <= 1) for v in list(Es.reshape(-1)) + list(Hs.reshape(-1))]
     for i, cfg in enumerate(case["cfgs"]):
         n = f"d{i}"
+        if n not in D:
+            continue
         d, rs = D[n], regions[n]
         on = [bool(v) for v in np.asarray(d._is_on_at_time_step_arr)]
         rec, stride, coef, scale, wsum = _oracle_tables(cfg, T, dt)
